@@ -63,7 +63,7 @@ func (c *Chunked) Read(p []byte) (int, error) {
 // FailAfter delivers the first K bytes of Data and then fails with ErrInjected.
 //
 // Forever: every later Read fails again; otherwise the error is returned once and later
-// reads return io.EOF. WithData: the error is returned together with the last delivered
+// reads return io.EOF (or, with Resume, the rest of the data). WithData: the error is returned together with the last delivered
 // bytes (n>0, err) instead of by a separate (0, err) call. Chunk limits the size of each
 // read (0 = as much as fits).
 type FailAfter struct {
@@ -72,10 +72,13 @@ type FailAfter struct {
 	Forever  bool
 	WithData bool
 	Chunk    int
-	Err      error // the error to deliver (default ErrInjected)
-	pos      int
-	failed   bool
-	Calls    int
+	// Resume: after the error has been returned once, the rest of Data is delivered (a
+	// connection that timed out once and then carries on), followed by io.EOF.
+	Resume bool
+	Err    error // the error to deliver (default ErrInjected)
+	pos    int
+	failed bool
+	Calls  int
 }
 
 func (f *FailAfter) err() error {
@@ -88,6 +91,21 @@ func (f *FailAfter) err() error {
 func (f *FailAfter) Read(p []byte) (int, error) {
 	f.Calls++
 	k := min(f.K, len(f.Data))
+	if f.Resume && f.failed {
+		if f.pos >= len(f.Data) {
+			return 0, io.EOF
+		}
+		if len(p) == 0 {
+			return 0, nil
+		}
+		n := min(len(p), len(f.Data)-f.pos)
+		if f.Chunk > 0 {
+			n = min(n, f.Chunk)
+		}
+		copy(p, f.Data[f.pos:f.pos+n])
+		f.pos += n
+		return n, nil
+	}
 	if f.pos >= k {
 		if f.failed && !f.Forever {
 			return 0, io.EOF
